@@ -459,6 +459,8 @@ Section Term.
       pose proof (topo_partial P Htopo p pn2 pf2 f Hlp Hf).
       repeat split; [lia|lia|apply w_child; lia].
     - (* callable / callable: the pair is recorded (Hcall), the three component checks run under it *)
+      (* (ANY mode with the F25 repair answers `true` at once: Rel.v cfg_any_callable) *)
+      match goal with |- context [if ?c then Some (true, A) else _] => destruct c end; [triv|].
       rewrite Hcall.
       apply (retract_ok _ (s, p)).
       destruct (topo_callable P Htopo s p1 r1 c1 Hls) as [Lp1 [Lr1 Lc1]].
@@ -485,6 +487,7 @@ Section Term.
     - (* cycle / cycle *)
       destruct (d1 =? d2); [triv|]. apply (Hcs Hcys). exact Hsel.
     - (* process / process *)
+      match goal with |- context [if ?c then Some (true, A) else _] => destruct c end; [triv|].
       assert (R1 : exists b1 A1, match sd1, sd2 with
                                  | Some s1, Some s2 => rec A ss ps s1 s2
                                  | _, _ => Some (true, A)
